@@ -34,7 +34,7 @@ def trusted_scan(text):
     out = []
     lines = text.split('\n')
     pat = re.compile(r'external_body|assume_specification|\badmit\(\)|\bassume\(|external_type_specification|#\[verifier::external\b')
-    name = re.compile(r'\bfn\s+(\w+)|assume_specification[^\[]*\[\s*([^\]]+)\]|struct\s+(\w+)')
+    name = re.compile(r'\bfn\s+(\w+)|assume_specification[^\[]*\[\s*(.+?)\s*\]\s*\(|struct\s+(\w+)')
     for i, l in enumerate(lines):
         if l.strip().startswith('//'):
             continue
